@@ -68,6 +68,25 @@ pub open spec fn fmul(a: f64, b: f64) -> f64 { <f64 as MulSpec<f64>>::mul_spec(a
 pub open spec fn fdiv(a: f64, b: f64) -> f64 { <f64 as DivSpec<f64>>::div_spec(a, b) }
 pub open spec fn frem(a: f64, b: f64) -> f64 { <f64 as RemSpec<f64>>::rem_spec(a, b) }
 
+// Floats are encoded as bit integers with a range invariant; Verus does not always know that invariant for
+// floats read out of nested structures, and then the typed axioms above do not fire.  Calling this PROVED lemma on
+// the two operands states totality for exactly those terms.
+pub proof fn lemma_tot(a: f64, b: f64)
+    ensures <f64 as AddSpec<f64>>::add_req(a, b), <f64 as SubSpec<f64>>::sub_req(a, b), <f64 as MulSpec<f64>>::mul_req(a, b),
+            <f64 as DivSpec<f64>>::div_req(a, b), <f64 as RemSpec<f64>>::rem_req(a, b),
+{
+    broadcast use {ax_add_req, ax_sub_req, ax_mul_req, ax_div_req, ax_rem_req};
+}
+
+/// value facts of + - * for two given finite operands (same purpose as lemma_tot)
+pub proof fn lemma_val(a: f64, b: f64)
+    requires fin(a), fin(b)
+    ensures fin(fadd(a, b)), rv(fadd(a, b)) == rv(a) + rv(b), fin(fsub(a, b)), rv(fsub(a, b)) == rv(a) - rv(b),
+            fin(fmul(a, b)), rv(fmul(a, b)) == rv(a) * rv(b),
+{
+    broadcast use {ax_add, ax_sub, ax_mul};
+}
+
 // ---- M2: finite arithmetic is real arithmetic ------------------------------
 pub broadcast axiom fn ax_add(a: f64, b: f64)
     requires fin(a), fin(b)
@@ -298,7 +317,11 @@ pub broadcast axiom fn ax_consts_inf()
 pub broadcast axiom fn ax_consts_nan()
     ensures #![trigger nan(NAN)] nan(NAN);
 
-// i8 -> f64 cast (sign corrections)
+// i8 -> f64 cast (sign corrections); rule R13 rewrites `x as f64` to `i8_to_f64(x)`
+#[verifier::external_body]
+pub fn i8_to_f64(a: i8) -> (r: f64)
+    ensures fin(r), rv(r) == a as real, r == (a as f64),
+{ a as f64 }
 pub broadcast axiom fn ax_i8_cast(a: i8)
     ensures fin(#[trigger] (a as f64)), rv(a as f64) == a as real;
 
